@@ -170,8 +170,13 @@ func (o *OracleC11) After(x *Exec, op *Op, res *Res) {
 		err.Add(err, burnt)
 		// also staking's own completion of native unbondings does not change supply; validators
 		// whose tokens changed by a native op in this block are outside this op
-		tol := big.NewRat(int64(adj+1), 1)
-		if ratAbs(err).Cmp(tol) >= 0 {
+		// every adjusted validator contributes a remainder in [0,1): a delegation of x tokens is
+		// worth x (to 1e-18 relative), an unbond returns the truncated value of the shares removed
+		// and exactly that is burned. So 0 <= err < #adjusted (small slack for exchange-rate rounding).
+		tol := big.NewRat(int64(adj), 1)
+		slack := new(big.Rat).Mul(netSupply(w, post), big.NewRat(1, 1_000_000_000_000_000))
+		slack.Add(slack, big.NewRat(1, 1000))
+		if err.Cmp(new(big.Rat).Add(tol, slack)) >= 0 || err.Cmp(new(big.Rat).Neg(slack)) < 0 {
 			x.Fail("C11", "net-supply", "block changed the staking-denom supply net of the module's stake by %s (fees minted by the harness %s, stray module coins burnt %s, %d validators adjusted)", dnet.FloatString(3), minted.FloatString(0), burnt.FloatString(0), adj)
 		}
 	case KSlash:
